@@ -275,6 +275,10 @@ class LogRecorder:
             # the batch is exhausted: consume one ordinary unit add so that a fresh batch is in place
             self.add(s, k, 1)
             ptr0 = int(sk.rand_ptr)
+            if ptr0 + cf.umax + 2 > 2048:
+                # (a unit add inside the reserved range draws nothing, so the exhausted batch is still in
+                # place and the draws of the big add could not be placed: skip it -- found with VERIF_SEED=7)
+                return
         m = int(min(sk.cms[r, c - 1] for r, c in enumerate(self.keys[k])))
         for c in range(m, cf.umax + 1):
             if c >= cf.nr:
@@ -463,7 +467,7 @@ def configs(report, specs, strict=False):
 
 def random_history(rng, focus=None, cfgs=None):
     kind, mc, nr = rng.choice(cfgs or CONFIGS)
-    if focus == "ceiling":
+    if focus in ("ceiling", "batchceil"):
         kind, mc, nr = rng.choice([("log8", 300, 0), ("log8", 1000, 3), ("log8", 5000, 30), ("log8", 1000, 15),
                                    ("log8", 300, 40), ("log8", 2000, 100)])
     cf = try_config(kind, mc, nr) or LogConfig("log8", 2**32 - 1, 15)
@@ -474,10 +478,32 @@ def random_history(rng, focus=None, cfgs=None):
     pool = impl.special_keys(rng)
     keys = rng.sample(pool, rng.randint(2, 6))
     n = rng.randint(8, 24)
+    if focus == "batchceil":
+        # batch entry points on keys that are (driven) at the ceiling: few keys, saturated early
+        keys = keys[:rng.randint(1, 3)]
+        n = rng.randint(10, 20)
     for _ in range(n):
         s, t = rng.randrange(NS), rng.randrange(NS)
         k = rng.choice(keys)
         x = rng.random()
+        if focus == "batchceil":
+            y = rng.random()
+            if y < 0.3:
+                rec.add_big(s, k, rng.choice([2**32, 2**33 + 1]))
+            elif y < 0.45:
+                rec.update_list(s, [rng.choice(keys) for _ in range(rng.randint(1, 5))])
+            elif y < 0.6:
+                rec.update_dict(s, [(rng.choice(keys), rng.choice([1, 2, 25])) for _ in range(rng.randint(1, 3))])
+            elif y < 0.75:
+                rec.add(s, k, rng.choice([1, 3, 40]), placer("lo", rng))
+            elif y < 0.85:
+                key = rng.choice(keys)[:6]
+                rec.add_ngram(s, key, rng.choice([1, 2, max(1, len(key)), len(key) + 1]))
+            elif y < 0.93:
+                rec.merge(s, t)
+            else:
+                rec.query(s, k)
+            continue
         if focus == "refill" and rng.random() < 0.3:
             rec.set_ptr(s, rng.choice([2040, 2045, 2047, 2048]))
             rec.add(s, k, rng.choice([1, 3, 12]), placer("lo", rng) if rng.random() < 0.5 else None)
